@@ -199,6 +199,34 @@ def check_union(repo, res, rule):
     res.count(rule + '_scenarios', n + 5, floor=8)
 
 
+def check_merged_dict(repo, res, rule):
+    """MergedDict (the table type of every region): lookup prefers the earlier mapping, iteration yields each key once
+    with the value lookup would give, membership and get agree with lookup, nested MergedDicts are flattened in order."""
+    m = get_model(repo)
+    MD = 'supp/merged_dict.py'
+
+    def scenario():
+        own = {'a': 'own-a', 'b': 'own-b'}
+        mid = {'b': 'mid-b', 'c': 'mid-c'}
+        far = {'c': 'far-c', 'd': 'far-d', 'a': 'far-a'}
+        inner = m.new('MergedDict', mid, far)
+        md = m.new('MergedDict', own, inner)
+        want = {'a': 'own-a', 'b': 'own-b', 'c': 'mid-c', 'd': 'far-d'}
+        got = {k: m.lookup(md, k) for k in 'abcd'}
+        items = m.it.iterate(m.it.call(m.it.getattr(md, 'items'), [], {}))
+        keys = [str(k) for k in m.it.iterate(md)]
+        vals = sorted(str(v) for v in m.it.iterate(m.it.call(m.it.getattr(md, 'values'), [], {})))
+        contains = [m.it.compare(__import__('ast').In(), k, md, None) for k in ('a', 'd', 'zz')]
+        getd = m.it.call(m.it.getattr(md, 'get'), ['zz', 'dflt'], {})
+        ok = (got == want and dict(items) == want and sorted(keys) == ['a', 'b', 'c', 'd'] and len(keys) == 4
+              and vals == sorted(want.values()) and contains == [True, True, False] and getd == 'dflt'
+              and m.lookup(md, 'zz') is None)
+        return ok, 'lookup %s, items %s, keys %s, membership %s' % (got, dict(items), sorted(keys), contains)
+    _guard(scenario, res, rule, 'MergedDict precedence, iteration and membership', MD,
+           'a region table must give its own bindings precedence over inherited ones in lookup *and* in iteration, and list every '
+           'visible name exactly once')
+
+
 def check_same_line(repo, res, rule):
     """Two queries on one physical line of one region, with a binding taking effect between them, asked in both orders."""
     m = get_model(repo)
